@@ -237,49 +237,55 @@ MC_FAMILIES = {  # cfg file, (quick depth, thorough depth)
 MC_FAMILY_CFG = {"accounts": 8, "dids": 2, "validators": 2, "balance": 10000000, "blockReward": 840}
 
 
+def _mc_family(args):
+    binary, workdir, tier, fam, cfgfile, depths = args
+    d = os.path.join(workdir, fam)
+    stage_spec(d)
+    gcfg = MC_CFG if fam in ("timeout", "sponsor", "migrate", "version", "debt", "stagger") else MC_FAMILY_CFG   # long time jumps: no block reward there
+    if fam == "rewardage":
+        gcfg = dict(MC_FAMILY_CFG, blockReward=2520, rewardBase="199999999995000")
+    if fam == "fault":
+        gcfg = GEN_CFG                                     # a03 is a fishman
+    if fam == "sidauth":
+        gcfg = dict(MC_FAMILY_CFG, accounts=12)           # a09..a11 create and are bound to the sid DIDs
+    rc, o, _ = run([binary, "genesis", "--cfg", json.dumps(gcfg), "--out", os.path.join(d, "genesis.json")])
+    if rc != 0:
+        raise MachineryError("genesis failed: " + o[-1000:])
+    depth = depths[0] if tier == "quick" else depths[1]
+    import re as _re
+    cfg = _re.sub(r"MaxEvents = \d+", "MaxEvents = %d" % depth, open(os.path.join(d, cfgfile)).read())
+    open(os.path.join(d, cfgfile), "w").write(cfg)
+    ce = os.path.join(d, "ce.json")
+    rc, output, wall = tlc(d, "MC.tla", cfgfile, workers=6, timeout=900 if tier == "quick" else 3000, extra=["-dumpTrace", "json", ce], heap="6g")
+    open(os.path.join(d, "tlc.out"), "w").write(output)
+    m = None
+    for m in TLC_STATS.finditer(output):
+        pass
+    r = {"depth": depth, "states": int(m.group(2)) if m else 0, "generated": int(m.group(1)) if m else 0, "wall_s": round(wall, 1),
+         "complete": "Model checking completed. No error has been found." in output, "counterexample_trace": None, "spec_violation": None}
+    if "is violated" in output and os.path.exists(ce):
+        dd = json.load(open(ce))
+        states = [x[1] for x in dd["counterexample"]["state"]]
+        r["spec_violation"] = sorted(states[-1]["bad"])
+        beh = os.path.join(d, "cebeh")
+        os.makedirs(beh, exist_ok=True)
+        json.dump(states[-1]["hist"], open(os.path.join(beh, "beh_ce_%s.json" % fam), "w"))
+        rc2, o2, _ = run([binary, "replay", "--in", beh, "--out", os.path.join(d, "cereal"), "--cfg", json.dumps(gcfg)], timeout=600)
+        if rc2 not in (0, 3):
+            raise MachineryError("replay of the model counterexample failed: " + o2[-1000:])
+        r["counterexample_trace"] = os.path.join(d, "cereal", "beh_ce_%s.ndjson" % fam)
+    elif not r["complete"] and r["states"] == 0:
+        r["failed"] = output[-300:]
+    return fam, r
+
+
 def model_check_families(binary, workdir, tier):
-    """Exhaustive TLC runs of the further MC.tla families (did, super, reward, auth) from the real genesis state."""
-    out = {}
-    for fam, (cfgfile, depths) in MC_FAMILIES.items():
-        d = os.path.join(workdir, fam)
-        stage_spec(d)
-        gcfg = MC_CFG if fam in ("timeout", "sponsor", "migrate", "version", "debt", "stagger") else MC_FAMILY_CFG   # the timeout family jumps over long spans: no block reward there
-        if fam == "rewardage":
-            gcfg = dict(MC_FAMILY_CFG, blockReward=2520, rewardBase="199999999995000")
-        if fam == "fault":
-            gcfg = GEN_CFG                                     # a03 is a fishman
-        if fam == "sidauth":
-            gcfg = dict(MC_FAMILY_CFG, accounts=12)           # a09..a11 create and are bound to the sid DIDs
-        rc, o, _ = run([binary, "genesis", "--cfg", json.dumps(gcfg), "--out", os.path.join(d, "genesis.json")])
-        if rc != 0:
-            raise MachineryError("genesis failed: " + o[-1000:])
-        depth = depths[0] if tier == "quick" else depths[1]
-        import re as _re
-        cfg = _re.sub(r"MaxEvents = \d+", "MaxEvents = %d" % depth, open(os.path.join(d, cfgfile)).read())
-        open(os.path.join(d, cfgfile), "w").write(cfg)
-        ce = os.path.join(d, "ce.json")
-        rc, output, wall = tlc(d, "MC.tla", cfgfile, workers=16, timeout=900 if tier == "quick" else 2400, extra=["-dumpTrace", "json", ce], heap="8g")
-        open(os.path.join(d, "tlc.out"), "w").write(output)
-        m = None
-        for m in TLC_STATS.finditer(output):
-            pass
-        r = {"depth": depth, "states": int(m.group(2)) if m else 0, "generated": int(m.group(1)) if m else 0, "wall_s": round(wall, 1),
-             "complete": "Model checking completed. No error has been found." in output, "counterexample_trace": None, "spec_violation": None}
-        if "is violated" in output and os.path.exists(ce):
-            dd = json.load(open(ce))
-            states = [x[1] for x in dd["counterexample"]["state"]]
-            r["spec_violation"] = sorted(states[-1]["bad"])
-            beh = os.path.join(d, "cebeh")
-            os.makedirs(beh, exist_ok=True)
-            json.dump(states[-1]["hist"], open(os.path.join(beh, "beh_ce_%s.json" % fam), "w"))
-            rc2, o2, _ = run([binary, "replay", "--in", beh, "--out", os.path.join(d, "cereal"), "--cfg", json.dumps(gcfg)], timeout=600)
-            if rc2 not in (0, 3):
-                raise MachineryError("replay of the model counterexample failed: " + o2[-1000:])
-            r["counterexample_trace"] = os.path.join(d, "cereal", "beh_ce_%s.ndjson" % fam)
-        elif not r["complete"] and r["states"] == 0:
-            r["failed"] = output[-300:]
-        out[fam] = r
-    return out
+    """Exhaustive TLC runs of the further MC.tla families from the real genesis state (three at a time)."""
+    from concurrent.futures import ThreadPoolExecutor
+    spec_snapshot()
+    jobs = [(binary, workdir, tier, fam, cfgfile, depths) for fam, (cfgfile, depths) in MC_FAMILIES.items()]
+    with ThreadPoolExecutor(max_workers=3) as ex:
+        return dict(ex.map(_mc_family, jobs))
 
 
 def _validate_chunk(args):
